@@ -430,8 +430,16 @@ impl<'r> Gen<'r> {
                 let inner = self.gen_expr(&Ty::Int(st), depth.saturating_sub(1).min(1));
                 let cast = e(ExprKind::Cast(Box::new(inner)), Ty::Int(ints::USIZE));
                 if self.rng.chance(1, 2) && len > 1 {
-                    // keep it in range (mostly): (x as usize) % len
-                    e(ExprKind::Bin(BinOp::Rem, Box::new(cast), Box::new(lit_int(ints::USIZE, len as i128))), Ty::Int(ints::USIZE))
+                    // keep it in range (mostly): (x as usize) % len, or k + ((x as usize) % (len - k)) -
+                    // an index expression that starts with a number
+                    let k = if self.rng.chance(1, 3) { self.rng.usize_below(len) } else { 0 };
+                    let rem = e(ExprKind::Bin(BinOp::Rem, Box::new(cast), Box::new(lit_int(ints::USIZE, (len - k) as i128))), Ty::Int(ints::USIZE));
+                    if k > 0 || self.rng.chance(1, 6) {
+                        self.note("index-expression-starting-with-a-number");
+                        e(ExprKind::Bin(BinOp::Add, Box::new(lit_int(ints::USIZE, k as i128)), Box::new(rem)), Ty::Int(ints::USIZE))
+                    } else {
+                        rem
+                    }
                 } else {
                     cast
                 }
